@@ -30,6 +30,7 @@ from labrea.application import FunctionApplication, PartialApplication
 from labrea.cache import Cache, CacheGetFailure, MemoryCache
 
 from . import rt
+from .core import h64
 from .rt import crepr, freeze
 
 PROG_MODULE = "labsim_prog"
@@ -899,6 +900,21 @@ class Program:
         if n.get("wraps"):
             # the decorator applied to an EXPRESSION instead of a function: dataset(WithOptions(X, P0), options=P, ...)
             fn = self.ref(n["wraps"])
+        if h64(("staged-factory", name)) % 3 == 0:
+            # the same definition spelled through a CHAIN of configured factories (project = dataset(cache=..., options=...);
+            # specific = project.where(arg=...); specific(fn, effects=..., default_options=...)): every level keeps what the
+            # levels before it configured, and a keyword given again replaces the inherited one as a whole. Chosen from the
+            # node name so that the random stream of the generators is unchanged.
+            early = {k: kw.pop(k) for k in ("cache", "options", "dispatch") if k in kw}
+            if kw.get("default_options"):
+                # defaults configured at the project level and given anew by the definition: the definition's replace them
+                early["default_options"] = {k: ({kk: "<inherited-default>" for kk in v} if isinstance(v, dict) and v else "<inherited-default>")
+                                            for k, v in kw["default_options"].items()}
+            if early:
+                factory = factory(**early)
+            if argnames and not n.get("wraps") and not n.get("posonly"):
+                factory = factory.where(**{argnames[-1]: self.ref(n["args"][argnames[-1]])})
+            self.staged_factories = getattr(self, "staged_factories", 0) + 1
         ds = factory(fn, **kw)
         for alias, impl in n.get("overloads", []):
             self.register(ds, alias, impl, cache_kind=ck)
